@@ -33,7 +33,8 @@ type CaseC19 struct {
 	Entries []DirEntry
 }
 
-var c19Kinds = []string{"good", "empty", "truncated", "random", "subdir", "dangling-symlink", "vanishes"}
+// "good-symlink" (a symbolic link to a good regular file kept outside the directory) is a variant of "good": see c19Entry.
+var c19Kinds = []string{"good", "empty", "truncated", "random", "subdir", "dangling-symlink", "vanishes", "symlink-to-dir"}
 
 // c19PadSizes are exact file sizes at chunk boundaries of plausible read loops.
 var c19PadSizes = []int{512, 4096, 8192, 32768, 65536, 98304, 131072}
@@ -73,7 +74,7 @@ var c19Rec = vt.NewRecorder("C19", "TestC19",
 		"Non-trivial = a bad entry adjacent (in name order) to a good one, or an all-bad / empty directory")
 
 var c19EnumRec = vt.NewRecorder("C19", "TestC19Enum",
-	"fault enumeration: every kind pattern of length 0-4 over the 7 entry kinds (1+7+49+343+2401 directories) with fixed increasing names, and every position of a single bad entry of every kind in runs of 5-8 good files, and runs of 31/32/33/64/65/100 consecutive bad entries of each kind between two good files")
+	"fault enumeration: every kind pattern of length 0-4 over the 8 entry kinds (1+8+64+512+4096 directories; every third good file is reached through a symbolic link) with fixed increasing names, and every position of a single bad entry of every kind in runs of 5-8 good files, and runs of 31/32/33/64/65/100 consecutive bad entries of each kind between two good files")
 
 func init() {
 	registerReplay("C19", "TestC19", checkC19)
@@ -132,6 +133,28 @@ func c19Materialise(dir string, entries []DirEntry, onlyGood map[string]bool) er
 			if err := os.Symlink(filepath.Join(dir, "does-not-exist-"+e.Name), p); err != nil {
 				return err
 			}
+		case "symlink-to-dir":
+			store := dir + "-store"
+			os.MkdirAll(filepath.Join(store, "d-"+e.Name), 0o755)
+			os.WriteFile(filepath.Join(store, "d-"+e.Name, "inner"), c19GoodFeed(1, 1), 0o644)
+			if err := os.Symlink(filepath.Join(store, "d-"+e.Name), p); err != nil {
+				return err
+			}
+		case "good-symlink":
+			if onlyGood != nil { // the "good files alone" directory holds plain copies
+				if err := os.WriteFile(p, e.Data, 0o644); err != nil {
+					return err
+				}
+				break
+			}
+			store := dir + "-store"
+			os.MkdirAll(store, 0o755)
+			if err := os.WriteFile(filepath.Join(store, "f-"+e.Name), e.Data, 0o644); err != nil {
+				return err
+			}
+			if err := os.Symlink(filepath.Join(store, "f-"+e.Name), p); err != nil {
+				return err
+			}
 		default:
 			if err := os.WriteFile(p, e.Data, 0o644); err != nil {
 				return err
@@ -154,6 +177,7 @@ func checkC19(c CaseC19) error {
 		return fmt.Errorf("temp dir: %w", err)
 	}
 	defer os.RemoveAll(dir)
+	defer os.RemoveAll(dir + "-store")
 	if err := c19Materialise(dir, c.Entries, nil); err != nil {
 		return fmt.Errorf("materialise: %w", err)
 	}
@@ -174,7 +198,7 @@ func checkC19(c CaseC19) error {
 	good := map[string]bool{}
 	for _, e := range sorted {
 		switch e.Kind {
-		case "subdir", "dangling-symlink", "vanishes":
+		case "subdir", "dangling-symlink", "vanishes", "symlink-to-dir":
 			continue
 		}
 		r, err := gtfs.ParseRealtime(append([]byte(nil), e.Data...), c19Options())
@@ -258,6 +282,9 @@ func c19Entry(kind string, name string, i int, variant int, t *rapid.T) DirEntry
 	switch kind {
 	case "good", "vanishes":
 		e.Data = c19GoodFeed(i, variant)
+		if kind == "good" && ((t == nil && (i+variant)%3 == 2) || (t != nil && rapid.IntRange(0, 5).Draw(t, "viaSymlink") == 0)) {
+			e.Kind = "good-symlink" // reading it follows the link: it is a readable, parseable entry like any other
+		}
 		if t != nil && rapid.IntRange(0, 9).Draw(t, "padded") == 0 {
 			e.Data = c19Pad(e.Data, rapid.SampledFrom(c19PadSizes).Draw(t, "padTo"))
 		}
@@ -283,7 +310,7 @@ func c19Classify(c CaseC19) (classes []string, nontrivial bool) {
 	sorted := append([]DirEntry(nil), c.Entries...)
 	sort.Slice(sorted, func(i, j int) bool { return sorted[i].Name < sorted[j].Name })
 	isGood := func(e DirEntry) bool {
-		if e.Kind == "subdir" || e.Kind == "dangling-symlink" || e.Kind == "vanishes" {
+		if e.Kind == "subdir" || e.Kind == "dangling-symlink" || e.Kind == "vanishes" || e.Kind == "symlink-to-dir" {
 			return false
 		}
 		_, err := gtfs.ParseRealtime(append([]byte(nil), e.Data...), c19Options())
@@ -382,7 +409,7 @@ func TestC19Enum(t *testing.T) {
 		maxLen = 4
 		c19EnumRec.Exhaustive = true
 	} else {
-		c19EnumRec.Rule = "fault enumeration (quick tier): every kind pattern of length 0-3 over the 7 entry kinds (1+7+49+343 directories), every position of a single bad entry of every kind in runs of 5 good files, runs of 31-100 consecutive bad entries of each kind between two good files; the thorough tier goes to length 4"
+		c19EnumRec.Rule = "fault enumeration (quick tier): every kind pattern of length 0-3 over the 8 entry kinds (1+8+64+512 directories; every third good file is reached through a symbolic link), every position of a single bad entry of every kind in runs of 5 good files, runs of 31-100 consecutive bad entries of each kind between two good files; the thorough tier goes to length 4"
 		c19EnumRec.Exhaustive = true
 	}
 	idx := 0
@@ -488,11 +515,12 @@ func TestC19CLI(t *testing.T) {
 		out, _ := os.MkdirTemp("", "verif-c19-cli-out-")
 		good := map[string]bool{}
 		for _, e := range c.Entries {
-			if e.Kind == "good" {
+			if e.Kind == "good" || e.Kind == "good-symlink" {
 				good[e.Name] = true
 			}
 		}
 		dirGood, _ := os.MkdirTemp("", "verif-c19-cli-good-")
+		defer os.RemoveAll(dir + "-store")
 		c19Materialise(dir, c.Entries, nil)
 		c19Materialise(dirGood, c.Entries, good)
 		cmd := exec.Command(cli, "journal", "-o", out, dir)
